@@ -187,10 +187,13 @@ func (i *Instance) Restart(newCasketfile Input) (*Instance, error) {
 	defer i.wg.Done()
 
 	var err error
+	// event hooks registered by a configuration that does not take effect go away with it
+	hooksBefore := cloneEventHooks()
 	// if something went wrong on restart then run onRestartFailed callbacks
 	defer func() {
 		r := recover()
 		if err != nil || r != nil {
+			restoreEventHooks(hooksBefore)
 			for _, fn := range i.OnRestartFailed {
 				if err := fn(); err != nil {
 					log.Printf("[ERROR] Restart failed callback returned error: %v", err)
